@@ -19,18 +19,32 @@ class Choose(Harness):
     prop = 'C18'
     doc = 'CHOOSE(i, v1..vn) = vi for 1 <= i <= n and an error otherwise'
     functions = ('lookupandreference.CHOOSE',)
-    bounds = 'n = 1..4 values (symbolic integers), index any integer'
+    bounds = 'n = 1..7 values (symbolic integers; every subset of the values may instead be blank - a variable holding None or an ' \
+             'empty argument slot - for n <= 4, one blank position for larger n), index any integer'
+    outside = ('an index that is a float (the result of 4/2): the library answers #ERROR!, an error and not another element; the statement quantifies over integer indices',)
 
     def cases(self, tier):
-        return [{'n': n} for n in (1, 2, 3, 4)]
+        out = []
+        for n in (1, 2, 3, 4, 5, 6, 7):
+            out.append({'n': n, 'blank': [], 'how': 'var'})
+            import itertools
+            subsets = [list(c) for r in range(1, n + 1) for c in itertools.combinations(range(n), r)] if n <= 4 else [[k] for k in range(n)]
+            for b in subsets:
+                out.append({'n': n, 'blank': b, 'how': 'var'})
+                if not any(k + 1 in b for k in b):
+                    out.append({'n': n, 'blank': b, 'how': 'slot'})     # (two adjacent empty slots are not in the grammar: C05)
+        return out
 
     def build(self, e, p):
-        return {'i': e.fresh_int('i'), 'vs': [e.fresh_int('v%d' % k) for k in range(p['n'])]}
+        i = e.fresh_int('i')
+        return {'i': i, 'vs': [None if k in p['blank'] else e.fresh_int('v%d' % k) for k in range(p['n'])]}
 
     def run(self, env, inp, p):
-        names = ['v%s' % 'abcd'[k] for k in range(p['n'])]
+        names = ['v%s' % 'abcdefg'[k] for k in range(p['n'])]
         vs = dict(zip(names, inp['vs']))
         vs['vi'] = inp['i']
+        if p['how'] == 'slot':
+            names = ['' if k in p['blank'] else nm for k, nm in enumerate(names)]      # CHOOSE(i,a,,c): an empty slot is a blank value
         return self.parse_with(env, 'CHOOSE(vi,%s)' % ','.join(names), vs)
 
     def post(self, env, inp, out, p):
@@ -39,7 +53,11 @@ class Choose(Harness):
         i = inp['i']
         cl = []
         for k in range(p['n']):
-            cl.append(Implies(i == k + 1, And(out['error'] is None, isint(out['result']) and out['result'] == inp['vs'][k])))
+            if inp['vs'][k] is None:
+                # the k-th value is blank: a blank (or the 0 a blank stands for) comes back, never a neighbour's value
+                cl.append(Implies(i == k + 1, And(out['error'] is None, out['result'] is None or (isint(out['result']) and out['result'] == 0))))
+            else:
+                cl.append(Implies(i == k + 1, And(out['error'] is None, isint(out['result']) and out['result'] == inp['vs'][k])))
         cl.append(Implies(Or(i < 1, i > p['n']), any_error(out)))
         return And(*cl)
 
@@ -145,15 +163,20 @@ class Match(Harness):
     doc = 'MATCH(x, array, t): t=0 first position equal to x (text case-insensitively with * and ?), t=1 on ascending arrays the ' \
           'position of the largest item <= x, t=-1 on descending arrays of the smallest item >= x, else #N/A; INDEX(a, MATCH(x,a,0)) = x'
     functions = ('lookupandreference.MATCH', 'lookupandreference.INDEX')
-    bounds = 'arrays of 1..4 symbolic integers (sorted with duplicates for t = +-1); text arrays of 1..3 items of 1..2 ASCII letters ' \
+    bounds = 'arrays of 1..6 (thorough 1..8) symbolic integers (sorted with duplicates for t = +-1), strictly monotone arrays of 8, 9, 12, 16, 17 ' \
+             '(thorough up to 33) items; text arrays of 1..3 items of 1..2 ASCII letters ' \
              'with a lookup pattern of 1..3 characters from letters * ?'
     outside = ('wildcard patterns containing [', 'non-ASCII text (case folding)')
 
     def cases(self, tier):
         out = []
-        for n in (1, 2, 3, 4):
+        for n in (1, 2, 3, 4, 5, 6) + (() if tier == 'quick' else (7, 8)):
             for t in (0, 1, -1):
                 out.append({'kind': 'int', 'n': n, 't': t})
+        # longer arrays: strictly monotone (the path classes of a scan with ties grow as 3^n)
+        for n in (8, 9, 12, 16, 17) if tier == 'quick' else (9, 10, 12, 16, 17, 24, 32, 33):
+            for t in (1, -1):
+                out.append({'kind': 'int', 'n': n, 't': t, 'strict': 1})
         lens = (1, 2)
         for n in (1, 2) if tier == 'quick' else (1, 2, 3):
             for lp in (1, 2, 3):
@@ -166,9 +189,9 @@ class Match(Harness):
             arr = [e.fresh_int('a%d' % i) for i in range(p['n'])]
             for i in range(p['n'] - 1):
                 if p['t'] == 1:
-                    e.add(arr[i].z <= arr[i + 1].z)
+                    e.add(arr[i].z < arr[i + 1].z if p.get('strict') else arr[i].z <= arr[i + 1].z)
                 elif p['t'] == -1:
-                    e.add(arr[i].z >= arr[i + 1].z)
+                    e.add(arr[i].z > arr[i + 1].z if p.get('strict') else arr[i].z >= arr[i + 1].z)
             return {'arr': arr, 'x': e.fresh_int('x')}
         letters = [(65, 90), (97, 122)]
         arr = [e.fresh_str('a%d' % i, p['li'], alphabet=letters) for i in range(p['n'])]
